@@ -3,6 +3,7 @@ package rules
 import (
 	"fmt"
 	"go/ast"
+	"go/token"
 	"go/types"
 	"sort"
 	"strings"
@@ -198,23 +199,44 @@ func C10(c *Ctx) {
 		}
 	}
 	r.Check(okB, "C10-b", "G.builder.optimize:used-only-for-the-template-parameter", "", "builder/builder.go", "written by the Optimize option, read by writeStaticCode", fmt.Sprintf("writes %v reads %v", writes, reads))
-	mf := load.FuncDecl(g.Pkg(""), "", "main")
-	uses := 0
-	okM := false
-	if mf != nil {
-		ast.Inspect(mf.Body, func(n ast.Node) bool {
-			if id, ok := n.(*ast.Ident); ok && id.Name == "optimizeParserFlag" {
-				uses++
+	// every use of the value of -optimize-parser in the command is the argument of builder.Optimize
+	mp := g.Pkg("")
+	skipGen := func(fn string) bool { return strings.HasSuffix(fn, "/pigeon.go") || strings.HasSuffix(fn, "_test.go") }
+	fm := newFlagModel(mp, skipGen)
+	uses, wired := 0, 0
+	for i, f := range mp.Syntax {
+		if i < len(mp.CompiledGoFiles) && skipGen(mp.CompiledGoFiles[i]) {
+			continue
+		}
+		var stack []ast.Node
+		ast.Inspect(f, func(n ast.Node) bool {
+			if n == nil {
+				stack = stack[:len(stack)-1]
+				return true
 			}
-			if ce, ok := n.(*ast.CallExpr); ok && callName(ce) == "builder.Optimize" && len(ce.Args) == 1 && nospace(ce.Args[0]) == "*optimizeParserFlag" {
-				okM = true
+			stack = append(stack, n)
+			e, ok := n.(ast.Expr)
+			if !ok || fm.flagOf(e) != "optimize-parser" {
+				return true
 			}
-			return true
+			// not the registration &x itself
+			if len(stack) >= 2 {
+				if ue, ok := stack[len(stack)-2].(*ast.UnaryExpr); ok && ue.Op == token.AND {
+					return false
+				}
+			}
+			uses++
+			if len(stack) >= 2 {
+				if ce, ok := stack[len(stack)-2].(*ast.CallExpr); ok && callName(ce) == "builder.Optimize" && len(ce.Args) == 1 {
+					wired++
+				}
+			}
+			return false
 		})
 	}
-	r.Check(okM && uses == 2, "C10-b", "G.main:-optimize-parser-wired-only-to-builder.Optimize", "", "main.go", "flag used once, as builder.Optimize(*optimizeParserFlag)", fmt.Sprintf("wired=%t uses=%d", okM, uses))
+	okM := wired == 1 && uses == 1
+	r.Check(okM, "C10-b", "G.main:-optimize-parser-wired-only-to-builder.Optimize", "", "main.go", "the flag's value is used once, as the argument of builder.Optimize", fmt.Sprintf("uses of the value: %d, of which as the argument of builder.Optimize: %d", uses, wired))
 }
-
 
 // funcItem finds the function declaration an item key ("func recv.name" / "func name") names.
 func funcItem(f *ast.File, key string) *ast.FuncDecl {
